@@ -76,6 +76,18 @@ def impl(case):
                     subs.append({"rows": exactcommon.uniq_rows(rows), "objective": obj})
                 out["sub_problems"] = subs
                 out["univ"] = [coder.code(ds.mapping_id_elem[i].value) for i in range(ds.nb_elements)]
+                # the sub-datasets as the code builds them (their id numbering follows the iteration order of the freshly
+                # built sets, which is observed, not modelled); names mapped back to the parent's elements
+                proj = getattr(ds, "_sub_problem_keeping_all_rankings", None)
+                if proj is None:
+                    out["sub_obs"] = "unavailable"
+                else:
+                    by_name = {str(e): e for e in ds.universe}
+                    sub_obs = []
+                    for comp in g["comps"]:
+                        sub = proj({ds.mapping_id_elem[i] for i in comp})
+                        sub_obs.append([[[coder.code(by_name[str(e)].value) for e in b] for b in r.buckets] for r in sub.rankings])
+                    out["sub_obs"] = sub_obs
             if len(probs) == 1 and config in ("selector-noopt", "cplex-noopt", "paperoptim1"):
                 rows, obj = exactcommon.standin_rows(probs[0], s)
                 out["rows"] = exactcommon.uniq_rows(rows)
@@ -108,9 +120,12 @@ def ops(case, out):
         # optimised CPLEX path: one ILP per component that cannot be all tied, on the projected dataset
         res.append(("part.parcons", [t, [out["comps"], 1000]]))
         S = lib.scheme_tree(case["scheme"])
-        for comp in out["comps"]:
+        for k, comp in enumerate(out["comps"]):
             keep = [out["univ"][i] for i in comp]
-            res.append(("ilp.subrows", [S, [out["obs"], [keep, 1]]]))
+            if out.get("sub_obs") == "unavailable":
+                res.append(("ilp.subrows", [S, [out["obs"], [keep, 1]]]))
+            else:
+                res.append(("ilp.subrowsobs", [S, [out["obs"], [keep, [out["sub_obs"][k], 1]]]]))
     return res
 
 
@@ -147,7 +162,12 @@ def judge(case, out, answers):
             diff.append("optimised path: %d ILPs solved, %d components cannot be all tied" % (len(out["sub_problems"]), len(hard)))
         else:
             for sp, k in zip(out["sub_problems"], hard):
-                mrows, mobj, _ = answers[base + 1 + k]
+                mrows, mobj, same = answers[base + 1 + k]
+                if out.get("sub_obs") != "unavailable" and not same:
+                    diff.append("optimised path: the sub-dataset of component %s is not the projection of the dataset" % out["comps"][k])
+                if out.get("sub_obs") == "unavailable":
+                    tags.append("internal_tie:unavailable")
+                    continue
                 mrows = exactcommon.uniq_rows([[sorted(r[0]), r[1], r[2]] for r in mrows])
                 if mrows != sp["rows"] or sorted([p for p in mobj if p[1] != 0]) != sp["objective"]:
                     diff.append("optimised path: ILP of component %s differs from the model's sub-problem" % out["comps"][k])
